@@ -1,6 +1,6 @@
 # property id -> claim text (filled as checks are admitted; everything else is listed under NA with the reason)
 CLAIMS = {
- 'C08': {'technique': 'static analysis: cross-implementation table agreement (constants from macro/enum/variable/Python-ast records; payload shapes by symbolic evaluation of the C++ and C serialisers and by Python ast; header, byte order, frame)',
+ 'C08': {'technique': 'static analysis: cross-implementation table agreement (constants from macro/enum/variable/Python-ast records; payload shapes by symbolic evaluation of the C++ and C serialisers and by Python ast; header, byte order, frame); abstract interpretation of the Python writer against its size functions over the Python ast (byte-count polynomials per type-code constraint)',
          'text': 'Decides, as tables, that the four codecs shipped in the repository (C++, C mini, C micro header, Python) and the documented layout agree: equal protocol/encoding/type-code constants, the documented '
                  'per-type payload shape in every implementation (size function, writer and reader sides), the three header words and their sources, little-endian discipline, and the 8-byte stream frame. '
                  'It is the static analogue of an independent decoder: a change made consistently on both C++ sides still disagrees with the other tables. Value-level decode equality is not decided.',
@@ -10,7 +10,7 @@ CLAIMS = {
                  'kept and every dominated update of the cursor / caller budget is computed from the returned count, never from the requested size; the stream branch hands a Message up only when the cursor reached '
                  'the end of its buffer; writer and reader of the 8-byte frame agree on offsets. Delivery for concrete segmentations, zlib/template-cache state and text/SLIP/WebSocket framing are not decided.',
          'note': 'Narrow. IORESULT was made exact on all 12 cursor-style sites of the current tree, so C03 is claimed rather than declared not applicable (see DESIGN section 4, C03).'},
- 'C14': {'technique': 'static analysis: extraction and comparison of archive operations (field name, kind, default, base chaining) per class, member read/write coverage, factory/TypeCode table agreement, path-based null-test rule',
+ 'C14': {'technique': 'static analysis: extraction and comparison of archive operations (field name, kind, default, base chaining) per class, member read/write coverage, factory/TypeCode table agreement, path-based null-test rule, call-graph recursion analysis (depth guards / frozen bounded families) from the expression and archive entry points',
          'text': 'Decides the archiving clause structurally for every filter tree at once: each class saves and restores the same (name, kind) fields with the same defaults and the same base chaining; every member '
                  'read under Matches is saved and restored somewhere in the class chain; every filter type code has a factory case creating the class that reports it; no Matches removes const; factory results '
                  'are null-tested on every path before they are dereferenced. Operator semantics, combinator truth tables and the expression grammar are not decided.',
@@ -29,7 +29,7 @@ CLAIMS = {
                  'position class (so escaping neutralises it and the uniqueness test sees it), and the translator never turns backslash+c into a regex operator for the characters where the dialect defines one. '
                  'Matching semantics in general are not decided.',
          'note': 'Narrow. Target dialect fixed to glibc regcomp(REG_EXTENDED).'},
- 'C16': {'technique': 'static analysis on forced template instantiations: per-instantiation constant folding of IsPerItemClearNecessary(), CFG pruning, shrink->reset and reset->grow pairing',
+ 'C16': {'technique': 'static analysis on forced template instantiations: per-instantiation constant folding of IsPerItemClearNecessary(), CFG pruning, shrink->reset and reset->grow pairing, ring-aware indexing, alias guards by path enumeration (item parameters; the Queue parameter being *this)',
          'text': 'Decides one structural clause of C16 — "never exposes stale items after shrinking": per instantiation (Queue<int32>, Queue<String>, Queue<ByteBufferRef>) either every reachable decrease of '
                  '_itemCount resets the vacated slot(s) to the default item on every feasible path, or every growth of _itemCount over unassigned slots first stores the default item into them. '
                  'All other deque behaviour (index translation, insert/remove results, sorting, rotation, copy/move) is not decided.',
@@ -44,11 +44,11 @@ CLAIMS = {
                  'it and to the right side; the receiver drains before it dequeues and never between dequeue and block, blocks only after a dequeue attempt and without a lock, and re-enters to dequeue after '
                  'every wake-up; WaitCondition counts notifications under its mutex and waits with a predicate; quit request precedes join; queued-before-start Messages are signalled. Interleavings are not explored.',
          'note': 'Only the C++11 branches of WaitCondition (the analysed configuration) are judged.'},
- 'C18': {'technique': 'static analysis: must-/may-hold lock sets, guard dominance of registrations by the admission tests within one guard object, wait-in-loop and may-reach hand-off checks',
+ 'C18': {'technique': 'static analysis: must-/may-hold lock sets, guard dominance of registrations by the admission tests within one guard object (through single-caller helpers), wait-in-loop and must-reach hand-off checks, deadline propagation to every blocking call',
          'text': 'Decides the structural invariants of the reader/writer mutex: state tables only under _stateMutex (helper preconditions inferred from all call sites); admission tests contain the exclusion '
                  'conjuncts; every registration of a new executing thread is dominated by the true edge of the matching test in the same critical section (also after a wake-up); waits happen with the lock '
                  'released and inside re-check loops; each departure can reach a notify routine in the same critical section. Exclusion/liveness over interleavings, writer preference and deadlines are not explored.',
-         'note': 'Hand-off is a may-reach rule (a must-reach form would alarm on the infeasible `--count != 0` path).'},
+         'note': 'One known finding is open (known_findings.json, status known): after a failed timed read-to-write upgrade the read locks are restored with an untimed LockReadOnly(), so LockReadWrite(deadline) can return long after its deadline (replays/C18_timed_upgrade_blocks_in_restore.cpp); printed as KNOWN-FINDING, exit 0. The hand-off after leaving the executing table is a must-reach rule with one named escape (the write-count test).'},
  'C19': {'technique': 'static analysis: must-/may-hold lock sets with inferred helper preconditions, critical-section co-location of hand-off/flag/table updates, queue-choice and unregister atomicity checks',
          'text': 'Decides the thread pool\'s locking structure: all pool tables under _poolLock; *Unsafe helpers only called with it; no blocking call under it (one frozen, checked roll-back join); hand-off, '
                  'being-handled flag and pending-table removal in one critical section; submit chooses the queue by the flag; completion clears, promotes and dispatches under one guard; unregister tests and '
@@ -149,6 +149,7 @@ ADDED3 = {
     'C08': ' Later: PY-EFFECT (the bytes the Python Message.Flatten() writes per field equal what FlattenedSize()/GetFieldContentsLength() compute, for every type-code branch, contents representation and byte order, with strings counted in encoded bytes; found and fixed two disagreements that made the C++ parser reject Python-written Messages).',
     'C16': ' Later: QUEUE-SELF (a method that moves the items of *this while reading its const Queue & argument by index runs only where &argument != this was tested alone; found and fixed q.AddHeadMulti(q)).',
     'C14': ' Later: R-REC over the expression parser and the archive factory (every recursive cycle reachable from CreateQueryFilterFromExpression / CreateQueryFilter carries a depth guard, a decremented depth argument, a single-shot NULL argument, or belongs to the Message-nesting family; found and fixed the unbounded recursion on nested parentheses).',
+    'C18': ' Later: DEADLINE (a Lock* method passes its deadline to every call that can block and gives up held locks only when the deadline is not zero; found and fixed the blocking try-upgrade; the untimed restore after a failed timed upgrade is the one known finding).',
     'C13': ' Later: INDEX-OBSERVERS covers every call that adds an index entry (InsertOrderedChild, ReorderChild, InsertIndexEntryAt): the owner session is flagged as having indexing present (found and fixed: REORDERDATA and CloneDataNodeSubtree did not).',
 }
 for _k, _v in ADDED3.items():
